@@ -2087,10 +2087,16 @@ class Builder(object):
             msg = "Error building %s. Unused tokens." % (command,)
             raise excepting.ParseError(msg, tokens, index)
 
+        try:
+            value = int(value)
+        except (ValueError, OverflowError):  # nan or inf
+            msg = "Error building %s. invalid repeat %s." % (command, value)
+            raise excepting.ParseError(msg, tokens, index)
+
         # build need act for transact
         need = self.makeImplicitDirectFramerNeed( name="recurred",
                                                   comparison='>=',
-                                                  goal=int(value),
+                                                  goal=value,
                                                   tolerance=0)
 
         needs = []
